@@ -225,6 +225,8 @@ func fitnessOf(fit, gen, idx, n int, org *genetics.Organism) float64 {
 			return -float64(idx + 1)
 		}
 		return float64(idx + 1)
+	case 12: // a tiny scale: distinct positive values around 1e-10 (a fitness measure in other units)
+		return 1e-10 * float64(idx+1)
 	case 10: // exact zeros and two tiny positive values (below the 1e-4 the library substitutes for negative fitness)
 		switch (idx + gen) % 4 {
 		case 1:
